@@ -204,6 +204,10 @@ func runC18(c *Ctx, ev *Evidence) ([]Violation, error) {
 		if only != "" && !strings.Contains(","+only+",", ","+h.Name+",") {
 			continue
 		}
+		if c18ThoroughOnly[h.Name] && c.Tier != "thorough" && only == "" {
+			ev.Outside(h.Name + " (" + strings.Join(h.Props, ",") + "): checked in the thorough tier only (its queries need long solver time)")
+			continue
+		}
 		if c18NotDecided[h.Name] && only == "" {
 			ev.Outside(h.Name + " (" + strings.Join(h.Props, ",") + "): not claimed - its accepting paths go through regexp.ReplaceAll and a comma split of the remainder, and the solvers do not decide them within the time limit")
 			continue
@@ -733,6 +737,9 @@ func (c *Ctx) proveEnumSummary(ev *Evidence, timeout time.Duration) (bool, error
 // c18NotDecided lists handlers whose queries do not finish at the registered
 // bounds; they are reported as outside the claim, not as passed.
 var c18NotDecided = map[string]bool{"TransformHandler": true}
+
+// c18ThoroughOnly: handlers whose queries take minutes; quick skips them.
+var c18ThoroughOnly = map[string]bool{"FontFamilyHandler": true, "BorderSideRadiusHandler": true, "FontHandler": true, "BackgroundHandler": true, "BackgroundPositionHandler": true}
 
 var c18Separators = []string{" ", "/", " / ", ","}
 
